@@ -21,6 +21,10 @@ INT_BITS = {"u8": 8, "u16": 16, "u32": 32, "u64": 64, "usize": 64, "u128": 128, 
 VARIANTS = {"None": 0, "Some": 1, "Ok": 0, "Err": 1, "Continue": 0, "Break": 1, "Less": -1, "Equal": 0, "Greater": 1}
 
 
+_CONSTS: dict[str, dict] = {}
+_EXT_CACHE: dict[int, tuple] = {}
+
+
 class Panic(Exception):
     """the evaluated code panics (an assert of the MIR fails, an unwrap of None ...)"""
 
@@ -154,9 +158,13 @@ class Machine:
         self.fuel = fuel
         self._consts = None
         self.ext: list[tuple[str, Any]] = []        # models a rule supplies for functions of other crates (pyo3): (regex on the callee, function)
-        self._by_tail: dict[str, list[MirFn]] = {}
-        for n, f in mir.fns.items():
-            self._by_tail.setdefault(n.rsplit("::", 1)[-1], []).append(f)
+        cached = getattr(mir, "_by_tail_cache", None)
+        if cached is None:
+            cached = {}
+            for n, f in mir.fns.items():
+                cached.setdefault(n.rsplit("::", 1)[-1], []).append(f)
+            mir._by_tail_cache = cached
+        self._by_tail: dict[str, list[MirFn]] = cached
 
     # ---- places and operands ------------------------------------------------------------------------------------------
     def place(self, s: str, L: dict) -> tuple[Any, Any]:
@@ -251,8 +259,11 @@ class Machine:
         m = re.fullmatch(r"(?:\w+::)*(?:constants|helpers|parsing)::(\w+)", s) or re.fullmatch(r"([A-Z][A-Z0-9_]+)", s)
         if m:
             if self._consts is None:
-                from . import rustconst
-                self._consts = rustconst.load_all()        # the literal constants of the crate, folded from the source text
+                key = str(core.REPO)
+                if key not in _CONSTS:
+                    from . import rustconst
+                    _CONSTS[key] = rustconst.load_all()    # the literal constants of the crate, folded from the source text
+                self._consts = _CONSTS[key]
             if m.group(1) in self._consts:
                 tolist = lambda v: [tolist(x) for x in v] if isinstance(v, (list, tuple)) else v      # noqa: E731
                 return tolist(self._consts[m.group(1)])
@@ -550,9 +561,12 @@ class Machine:
         raise Unsupported(f"call of `{callee[:70]}` (not modelled)")
 
     def call(self, callee: str, args: list[Any]):
-        for pat, fn in self.ext:
-            if re.search(pat, callee):
-                return fn(*args)
+        if self.ext:
+            cache = _EXT_CACHE.setdefault(id(self.ext), (self.ext, {}))[1]        # the list is kept alive with its cache: its id is never reused
+            if callee not in cache:
+                cache[callee] = next((fn for pat, fn in self.ext if re.search(pat, callee)), None)
+            if cache[callee] is not None:
+                return cache[callee](*args)
         f = self.find(callee, len(args))
         if f is not None and ("::" not in callee or not callee.startswith(("core::", "std::", "<"))):
             return self.run(f, args)
